@@ -196,7 +196,23 @@ def hook_pairing(repo, reg, clr):
                                  % unparse(lost[0])[:80], lost[0]))
         else:
             out.append(holds("HOOK-PAIRING", f, role, "%d registrations, each appended to module.handles" % len(regs), regs[0]))
-        # the registrar must not leave stale handles behind: `module.handles = []` precedes the appends
+        # idempotence: resetting the handle record is only safe when modules that already carry hooks are skipped first
+        role2 = "re-visiting a module (shared instance under two parents, leftover hooks) cannot overwrite its handle record"
+        resets = [s_ for s_ in f.node.body if isinstance(s_, ast.Assign) and any(
+            isinstance(t, ast.Attribute) and t.attr == "handles" for t in s_.targets) and isinstance(s_.value, (ast.List, ast.Call))]
+        if resets:
+            guards = [s_ for s_ in f.node.body if isinstance(s_, ast.If) and any(isinstance(b, ast.Return) for b in s_.body)
+                      and f.node.body.index(s_) < f.node.body.index(resets[0])
+                      and any(k in unparse(s_.test) for k in ("_backward_hooks", "handles", "_forward_hooks"))]
+            if guards:
+                out.append(holds("HOOK-PAIRING", f, role2, "early return `if %s` precedes `%s`" % (unparse(guards[0].test), unparse(resets[0])), guards[0]))
+            else:
+                out.append(violation("HOOK-PAIRING", f, role2,
+                                     "`%s` runs for every visit: model.apply reaches a module instance shared by two parents twice, the second visit "
+                                     "discards the first three handles, which are then never removed" % unparse(resets[0]), resets[0],
+                                     witness={"model": "act = ReLU(); Sequential(Block(conv, act), Block(conv, act))", "effect": "3 hooks survive the call"}))
+        else:
+            out.append(holds("HOOK-PAIRING", f, role2, "the handle record is never reset", f.node, nontrivial=False))
     for q in sorted(clr):
         f = repo.func(q)
         role = "the clearer removes every recorded handle"
